@@ -186,6 +186,20 @@ pub fn directed_programs(kinds: &[Kind], seed: u64) -> Vec<Program> {
                 }
             }
         }
+        if k == Kind::Rimt {
+            // an IOMMU that starts beyond 64 KiB, referenced by later ID mappings (offsets are dwords)
+            let iommu = |id: u16| Op::RimtIommu { id, base: Some(0x1000 + id as u64), pci: None, prox: None, wires: None };
+            let m = |iommu: u32| IdMap { src: 1, dst: 2, n: 3, iommu, ats: true, pri: false, rciep: false };
+            let mut p = base.clone();
+            p.ops = vec![
+                iommu(1),
+                Op::Repeat(Box::new(Op::RimtRc { id: 7, seg: 1, ats: false, pri: false, maps: None }), 4_100),
+                iommu(2),
+                Op::RimtRc { id: 8, seg: 2, ats: true, pri: true, maps: Some(vec![m(1), m(0)]) },
+                Op::RimtPlat { id: 9, name_len: 5, maps: Some(vec![m(1)]) },
+            ];
+            out.push(p);
+        }
         if k == Kind::Hmat {
             // a side cache at the limit of its 16-bit handle count (the helper then attempts one more,
             // which must be refused without a trace), followed by an ordinary structure
